@@ -310,9 +310,27 @@ def run_case(rec, case: dict) -> None:
     chart, twin = a.chart, b.chart
     _C19State.active = True
     try:
-        before = state(chart, twin)
-        if not (before[1] and before[2]):
+        # equality and stored fields BEFORE anything derived is read; then the first full observation (which reads every
+        # derived attribute) is itself judged as a read-only operation
+        eq0 = (bool(chart == twin), bool(twin == chart))
+        if not (eq0[0] and eq0[1]):
             rec.diag("twin differs from chart before any operation (C17's business); case skipped")
+            return
+        raw0 = observe.raw(chart)
+        before = state(chart, twin)
+        rec.ev()
+        rec.cls("op:first_observation_reads_derived_attributes")
+        raw1 = observe.raw(chart)
+        if raw1 != raw0 or not (before[1] and before[2]):
+            import json as _json
+
+            a, b = _json.loads(raw0), _json.loads(raw1)
+            where = [k for k in a if a[k] != b[k]]
+            tw = [k for k in a["tracks"] if a["tracks"][k] != b["tracks"].get(k)] if "tracks" in where else []
+            rec.violation("state-changed", "reading the chart's public and derived attributes (end_tick, longest_sustain, "
+                          f"last_note_end_timestamp, header_tag, ...) changed its stored data: sections {where} {tw[:3]}; "
+                          f"equality with the twin now {before[1:]}", {"text": text, "ops": [], "opseed": seed_key},
+                          "state-changed-by:reading-derived-attributes")
             return
         import random
 
